@@ -174,7 +174,7 @@ func (w *world) readAll(h *handle) {
 	}
 	if w.cfg.mode == csproto.DecoderModeSafe {
 		for _, t := range []int{1, 2, 3} {
-			if x := lazyref.Retain(h.res, t, fmt.Sprintf("%s tag %d", w.inputs[h.in].name, t)); !x.Empty() {
+			if x := lazyref.RetainAll(h.res, t, fmt.Sprintf("%s tag %d", w.inputs[h.in].name, t)); !x.Empty() {
 				w.retained = append(w.retained, x)
 			}
 		}
@@ -188,7 +188,7 @@ func (w *world) readNested(h *handle) {
 			w.fail("isolation-nested/"+sig, "nested #%d of %s: %s", i, w.inputs[h.in].name, msg)
 		}
 		if w.cfg.mode == csproto.DecoderModeSafe {
-			if x := lazyref.Retain(nh.res, 1, fmt.Sprintf("%s nested %d tag 1", w.inputs[h.in].name, i)); !x.Empty() {
+			if x := lazyref.RetainAll(nh.res, 1, fmt.Sprintf("%s nested %d tag 1", w.inputs[h.in].name, i)); !x.Empty() {
 				w.retained = append(w.retained, x)
 			}
 		}
